@@ -13,6 +13,7 @@ fn run_line(prop: &str, args: &[&str]) -> String {
     match prop {
         "C06" => conn::run(args),
         "C07" => wire::run(args),
+        "C12" => sess::run12(args),
         "C13" => sess::run13(args),
         "C14" => sess::run14(args),
         _ => panic!("unknown property {}", prop),
@@ -23,6 +24,7 @@ fn gen(prop: &str, rng: &mut Rng, n: usize) -> Vec<String> {
     match prop {
         "C06" => conn::gen(rng, n),
         "C07" => wire::gen(rng, n),
+        "C12" => sess::gen12(rng, n),
         "C13" => sess::gen13(rng, n),
         "C14" => sess::gen14(rng, n),
         _ => panic!("unknown property {}", prop),
